@@ -125,6 +125,10 @@ class ChkStyle(Style):
         if k == 'foreach':
             _, fn, xs, epat, spat, body, init = node
             return [pad + f'{fn} {xs} (fun {epat} {spat} =>'] + render(body, ind + 2, self) + [pad + f'  ) {init}']
+        if k == 'tryelse':
+            _, body, caught, handler, bpat, orelse, bty = node
+            return ([pad + 'PyKit.tryExceptElse (show Except ' + self.err + ' ' + bty + ' from'] + render(body, ind + 2, self) + [pad + f'  ) {caught} ('] +
+                    render(handler, ind + 2, self) + [pad + f'  ) (fun {bpat} =>'] + render(orelse, ind + 2, self) + [pad + '  )'])
         raise AssertionError(k)
 
 STYLE = ChkStyle('Py.Exc', 'PyKit.tryExcept', 'PyKit.forRange')
@@ -856,6 +860,8 @@ class Fn(Stmts):
     def pseudo(self, e, op, env, B):
         """the pseudo-functions of `Normalize` (mutation as rebinding)"""
         a = e.args
+        r = self.u.pseudo(self, e, op, env, B)
+        if r is not None: return r
         if op == 'pop' and len(a) == 1:
             t, ty = self.expr(a[0], env, B)
             if ty[0] == 'list': return self.hoist(B, f'HdrPy.pop {atom(t)}'), ty
@@ -996,6 +1002,45 @@ class Fn(Stmts):
         r = self.u.other_stmt(self, s, rest, env, k, live)
         if r is not None: return r
         bad(s, f'statement {type(s).__name__}')
+
+    # ---------------- try / except [/ else]
+    def caught_pred(self, t, env):
+        if t is None: bad(t, 'bare except')
+        r = self.u.caught(self, t, env)
+        if r is not None: return r
+        if isinstance(t, ast.Name) and t.id in self.CAUGHT and t.id not in env: return self.CAUGHT[t.id]
+        bad(t, f'except clause {ast.unparse(t)}')
+
+    def try_(self, s, env, go, live):
+        if s.finalbody: return self.try_finally(s, env, go, live)
+        if len(s.handlers) != 1: bad(s, 'several except clauses')
+        h = s.handlers[0]
+        if h.name is not None: bad(s, 'except … as name')
+        caught = self.caught_pred(h.type, env)
+        if contains(s.body + h.body + s.orelse, (ast.Return, ast.Break, ast.Continue)): bad(s, 'return / break / continue inside try')
+        if not s.orelse:
+            vars_ = self.join_vars([s.body, h.body], env, live)
+            brs = [lambda k: self._seq(s.body, dict(env), k, set(vars_)), lambda k: self._seq(h.body, dict(env), k, set(vars_))]
+            trees, types, views = self.run_join(brs, env, vars_, s)
+            env2 = dict(env)
+            for v, t in zip(vars_, types): env2[v] = t
+            env2.update(views)
+            ty = tuple_type(types)
+            return joinc(tuple_pat([self.lvar(v) for v in vars_]), ('tryexpr', trees[0], caught, trees[1], ty), ty, go(env2))
+        # try / except / else: the else block runs after a body that raised nothing, outside the protection of the handler
+        body_vars = self.join_vars([s.body], env, read_names(s.orelse) | live)
+        tb, types_b, _ = self.run_join([lambda k: self._seq(s.body, dict(env), k, set(body_vars))], env, body_vars, s)
+        env_else = dict(env)
+        for v, t in zip(body_vars, types_b): env_else[v] = t
+        vars_ = self.join_vars([s.body + s.orelse, h.body], env, live)
+        brs = [lambda k: self._seq(s.orelse, dict(env_else), k, set(vars_)), lambda k: self._seq(h.body, dict(env), k, set(vars_))]
+        trees, types, views = self.run_join(brs, env, vars_, s)
+        env2 = dict(env)
+        for v, t in zip(vars_, types): env2[v] = t
+        env2.update(views)
+        ty = tuple_type(types)
+        node = ('tryelse', tb[0], caught, trees[1], tuple_pat([self.lvar(v) for v in body_vars]), trees[0], tuple_type(types_b))
+        return joinc(tuple_pat([self.lvar(v) for v in vars_]), node, ty, go(env2))
 
     # ---------------- loops
     def iterable(self, it, env, B, s):
@@ -1177,6 +1222,8 @@ class Unit:
     def tag_extra(self, fn, a, env, B): return None
     def tag_star(self, fn, a, env, B): return None
     def setitem(self, fn, e, d, env, B): return None
+    def pseudo(self, fn, e, op, env, B): return None
+    def caught(self, fn, t, env): return None
     def raise_(self, fn, s, env, B): return None
     def unpack(self, fn, target, value, s, env, go): return None
     def call_stmt(self, fn, c, s, env, go): return None
@@ -1228,7 +1275,7 @@ class Unit:
             fn.after = after
             if probe: fn.probe = []
             else: fn.result_types = rts
-            tree = fn.block(list(f2.body), dict(env), fn.fall_off, set())
+            tree = fn.block(list(f2.body), dict(env), fn.fall_off, set(outvars))       # the hidden results are read when the function returns
             return fn, tree
         fn, _ = run(True)
         rts = None
